@@ -1,5 +1,5 @@
 (* Driver for the extracted configuration-gate model (C17).
-   argv: six 0/1 digits = behav (rule_wt expires revalidate_cli validate_builds dur_checked count_exclude).
+   argv: seven 0/1 digits = behav (rule_wt expires revalidate_cli validate_builds dur_checked count_exclude strict_dates).
    stdin: one case per line  CFG\t<config tokens>\tFLAGS\t<flag tokens>   or   PARSEFAIL\t...
           or  DUR\t<codepoints>  /  DATE\t<codepoints>  / CUT\t<now>\t<days>
    stdout: one result per line (see fmt_case). Token format = harness sgv-gate. *)
@@ -115,16 +115,17 @@ let fmt_check = function None -> "OK" | Some e -> fmt_err e
 let b01 b = if b then "1" else "0"
 
 let () =
-  let bits = if Array.length Sys.argv > 1 then Sys.argv.(1) else "000000" in
+  let bits = if Array.length Sys.argv > 1 then Sys.argv.(1) else "0000000" in
   let g i = String.length bits > i && bits.[i] = '1' in
-  let bh = { b_rule_wt = g 0; b_expires = g 1; b_revalidate_cli = g 2; b_validate_builds = g 3; b_dur_checked = g 4; b_count_exclude = g 5 } in
+  let bh = { b_rule_wt = g 0; b_expires = g 1; b_revalidate_cli = g 2; b_validate_builds = g 3; b_dur_checked = g 4; b_count_exclude = g 5; b_strict_dates = g 6 } in
   let classes c fl =
     String.concat "," (List.filter (fun x -> x <> "") [
       (if k_rule_warn_threshold bh c then "K17_rule_warn_threshold" else "");
       (if k_expires bh c then "K17_expires" else "");
       (if k_cli_after_validation bh c fl then "K17_cli_after_validation" else "");
       (if k_overflow bh c then "K17_overflow" else "");
-      (if k_dormant_glob bh c then "K17_dormant_glob" else "")]) in
+      (if k_dormant_glob bh c then "K17_dormant_glob" else "");
+      (if k_lenient_date bh c then "K17_lenient_date" else "")]) in
   let case doc fl =
     let per p tag =
       Printf.sprintf "%s check=%s validate=%s show=%s" tag (fmt_out (gate_check bh p doc fl))
@@ -151,7 +152,7 @@ let () =
       | ["DUR"; s] ->
         let f p chk = match parse_duration chk p (dec s) with DurOk _ -> "OK" | DurErr -> "ERR" | DurPanic -> "PANIC" in
         Printf.printf "DUR %s %s %s\n" (f Debug false) (f Release false) (f Debug true)
-      | ["DATE"; s] -> Printf.printf "DATE %s\n" (b01 (date_valid (dec s)))
+      | ["DATE"; s] -> Printf.printf "DATE %s %s\n" (b01 (date_valid (dec s))) (b01 (date_strict (dec s)))
       | ["CUT"; now; days] ->
         let f p chk = match retention_cutoff chk p (n_of_dec now) (n_of_dec days) with CutOk _ -> "OK" | CutPanic -> "PANIC" in
         Printf.printf "CUT %s %s %s\n" (f Debug false) (f Release false) (f Debug true)
